@@ -102,7 +102,13 @@ def run_case(ctx, name, params):
             ctx.count("evaluations_numpy" if as_numpy else "evaluations_python")
             wit = {"function": fname, "dimension": n, "x": [float(v) for v in x], "numpy": as_numpy}
             try:
-                res = p.evaluate(Individual(vec))
+                ind = state.get("ind")
+                if ind is not None and len(ind.vector) == len(vec) and r.random() < 0.3:
+                    ind.vector = vec            # the same Individual object, moved (as swarm particles are)
+                    ctx.count("re_evaluations_of_a_moved_individual")
+                else:
+                    ind = state["ind"] = Individual(vec)
+                res = p.evaluate(ind)
             except Exception as e:
                 ctx.violation("C15/%s/totality/exception/%s" % (fname, type(e).__name__),
                               "%s.evaluate raised %r on a point of its box" % (fname, e), wit)
